@@ -6,6 +6,7 @@ import (
 	"math/big"
 	"os"
 	"os/signal"
+	"strings"
 	"syscall"
 	"time"
 
@@ -332,6 +333,19 @@ var corruptions = []corruption{
 		setCommit(b, newCommit(b.LastCommit.BlockID, pcs))
 		return true
 	}},
+	{"evidence/fault-record-at-first-height", 1, func(r *rng.R, b *types.Block, e *env) bool {
+		// the first block has no previous commit to judge a fault-validator record against: any such record is
+		// invalid there, and validating it must not need the (absent) precommits
+		if b.Height != types.BlockHeightOne {
+			return false
+		}
+		f := &types.FaultValidatorsEvidence{BlockHeight: b.Height - 1, Round: r.Intn(2), Proposer: e.g.Vals[r.Intn(len(e.g.Vals))].PubKey()}
+		if r.Bool() {
+			f.BlockHeight = b.Height
+		}
+		setEvidence(b, append(append(types.EvidenceList{}, b.Evidence.Evidence...), f))
+		return true
+	}},
 	{"evidence/fault-record-missing", 2, func(r *rng.R, b *types.Block, e *env) bool {
 		var evs types.EvidenceList
 		for _, ev := range b.Evidence.Evidence {
@@ -491,6 +505,9 @@ func run(c *core.Ctx) {
 	}
 	cor := corruptions[ci]
 	targetH := cor.MinH + uint64(r.Intn(3))
+	if strings.HasSuffix(cor.Name, "-at-first-height") {
+		targetH = 1
+	}
 	e := &env{sim: sim, g: g, byzKey: sim.Vals[byzID].Priv, chainID: sim.ChainID}
 	// half of the cases: at the target height every honest proposal is lost until the Byzantine validator's
 	// turn comes in a round > 0; its corrupted proposal then names an earlier round (which ended with +2/3
@@ -574,7 +591,15 @@ func run(c *core.Ctx) {
 			if name != "" {
 				// by-construction check: the repository's validator (on this correct node's status) must reject it;
 				// if it does not, either the corruption is a no-op or validation itself is weakened
-				if err := apps[n.ID].N.BlockExec.ValidateBlock(e.status, fresh); err == nil && !noDirect[name] {
+				err, vpanic := func() (err error, p interface{}) {
+					defer func() { p = recover() }()
+					return apps[n.ID].N.BlockExec.ValidateBlock(e.status, fresh), nil
+				}()
+				if vpanic != nil {
+					// validators run ValidateBlock on every proposal before they prevote: a panic there ends the
+					// consensus routine of every correct node that receives this proposal
+					sim.Mon.Violate("validateblock-panics/"+name, fmt.Sprintf("ValidateBlock panicked on a block at height %d with corruption %s: %v", fresh.Height, name, vpanic))
+				} else if err == nil && !noDirect[name] {
 					c.Count("corruptions_accepted_by_ValidateBlock", 1)
 					sim.Mon.Violate("validateblock-accepts/"+name, fmt.Sprintf("ValidateBlock accepted a block at height %d with corruption %s", fresh.Height, name))
 				}
